@@ -75,11 +75,11 @@ def classify(diag):
 VC_PAT = re.compile(r'(postcondition not satisfied|precondition not satisfied|assertion failed|invariant not satisfied|'
                     r'decreases not satisfied|could not prove termination|possible arithmetic underflow/overflow|'
                     r'possible division by zero|possible bit shift underflow/overflow|'
-                    r'assertion not satisfied|not satisfied)')
+                    r'assertion not satisfied|not satisfied|unable to prove (post|pre)-?condition|unable to prove)')
 
 
 KIND_MAP = [
-    ('postcondition', 'post'), ('precondition', 'pre'), ('invariant', 'inv'), ('assertion', 'assert'),
+    ('postcondition', 'post'), ('post-condition', 'post'), ('precondition', 'pre'), ('pre-condition', 'pre'), ('invariant', 'inv'), ('assertion', 'assert'),
     ('overflow', 'overflow'), ('division', 'div0'), ('decreases', 'term'), ('shift', 'shift'),
     ('termination', 'term'), ('unreachable', 'unreachable'),
 ]
